@@ -126,6 +126,11 @@ class C13(Prop):
                     ops.append([a, rng.randrange(8)])
                 elif a == 'settarget':
                     ops.append([a, rng.choice([0, 1, 2] if allow_zero else [1, 1, 2, 3, 5, rng.randrange(1, 7)])])
+                    if ops[-1][1] <= 0:
+                        if rng.random() < 0.3:
+                            ops[-1][1] = rng.choice([0, -1, -3])
+                        # entries attempted while the limit is zero or less (permits may still be in circulation)
+                        ops += [['enter'], ['tick'], ['tick']] * rng.randrange(1, 3)
                 else:
                     ops.append([a])
             yield {'t0': rng.randrange(1, 4), 'ops': ops}
